@@ -6,17 +6,17 @@ namespace CG
 namespace USS
 open Circuit Unroll
 
-/-- exposed names of the non-data input pins -/
-def R1 (bb : BBox) (insts : List Name) (dPort : Name) : List Name :=
-  (bb.ins.filter (· != dPort)).flatMap (fun p => insts.map (fun b => b ++ "_" ++ p))
+/-- exposed names of the non-data input pins (ignored pins were deleted by `strip_blackboxes`, never exposed: fix K39) -/
+def R1 (bb : BBox) (insts : List Name) (dPort : Name) (ig : List Name) : List Name :=
+  (bb.ins.filter (fun p => p != dPort && !ig.contains p)).flatMap (fun p => insts.map (fun b => b ++ "_" ++ p))
 
-/-- exposed names of the non-data output pins -/
-def R2 (bb : BBox) (insts : List Name) (qPort : Name) : List Name :=
-  (bb.outs.filter (· != qPort)).flatMap (fun p => insts.map (fun b => b ++ "_" ++ p))
+/-- exposed names of the non-data output pins (without the ignored ones) -/
+def R2 (bb : BBox) (insts : List Name) (qPort : Name) (ig : List Name) : List Name :=
+  (bb.outs.filter (fun p => p != qPort && !ig.contains p)).flatMap (fun p => insts.map (fun b => b ++ "_" ++ p))
 
-/-- the stripped circuit without the non-data pins -/
-def cs2 (cs0 : Circuit) (bb : BBox) (insts : List Name) (dPort qPort : Name) : Circuit :=
-  (cs0.remove (R1 bb insts dPort)).remove (R2 bb insts qPort)
+/-- the stripped circuit without the exposed non-data pins -/
+def cs2 (cs0 : Circuit) (bb : BBox) (insts : List Name) (dPort qPort : Name) (ig : List Name) : Circuit :=
+  (cs0.remove (R1 bb insts dPort ig)).remove (R2 bb insts qPort ig)
 
 /-- the unloaded inputs removed when `remove_unloaded` is set -/
 def R3 (c2 : Circuit) (insts : List Name) (qPort : Name) (ru : Bool) : List Name :=
@@ -24,8 +24,8 @@ def R3 (c2 : Circuit) (insts : List Name) (qPort : Name) (ru : Bool) : List Name
   else []
 
 /-- the circuit handed to `unroll` -/
-def prune (cs0 : Circuit) (bb : BBox) (insts : List Name) (dPort qPort : Name) (ru : Bool) : Circuit :=
-  (cs2 cs0 bb insts dPort qPort).remove (R3 (cs2 cs0 bb insts dPort qPort) insts qPort ru)
+def prune (cs0 : Circuit) (bb : BBox) (insts : List Name) (dPort qPort : Name) (ig : List Name) (ru : Bool) : Circuit :=
+  (cs2 cs0 bb insts dPort qPort ig).remove (R3 (cs2 cs0 bb insts dPort qPort ig) insts qPort ru)
 
 theorem remove_nil (c : Circuit) : c.remove [] = c := rfl
 
@@ -34,7 +34,7 @@ theorem seq_unfold' {c : Circuit} {n : Nat} {dPort qPort : Name} {ignore : List 
     (h : Tx.sequentialUnroll c n dPort qPort ignore afo initStr [] ru pfx ord = .ok res) :
     ∃ cs0 u0 bb rest r uc1,
       Tx.stripBlackboxes c ignore ord = .ok cs0 ∧ c.bbs = (u0, bb) :: rest ∧
-      Tx.unroll (prune cs0 bb (c.bbs.map (fun p : Name × BBox => p.1)) dPort qPort ru) n
+      Tx.unroll (prune cs0 bb (c.bbs.map (fun p : Name × BBox => p.1)) dPort qPort ignore ru) n
         ((c.bbs.map (fun p : Name × BBox => p.1)).map (fun (b : Name) => (b ++ "_" ++ dPort, b ++ "_" ++ qPort))) pfx ord = .ok r ∧
       (c.bbs.map (fun p : Name × BBox => p.1)).foldlM (outStep r.2 dPort afo) r.1 = .ok uc1 ∧
       (match initStr with
@@ -58,14 +58,14 @@ theorem seq_unfold' {c : Circuit} {n : Nat} {dPort qPort : Name} {ignore : List 
         injection h with h
         subst h
         refine ⟨cs0, nm, bb, rest, r, uc1, hs, hbbs, ?_, h1, ?_, rfl⟩
-        · have e : prune cs0 bb (c.bbs.map (fun p : Name × BBox => p.1)) dPort qPort ru =
+        · have e : prune cs0 bb (c.bbs.map (fun p : Name × BBox => p.1)) dPort qPort ignore ru =
               (if ru = true then
-                (cs2 cs0 bb (c.bbs.map (fun p : Name × BBox => p.1)) dPort qPort).remove
-                  ((cs2 cs0 bb (c.bbs.map (fun p : Name × BBox => p.1)) dPort qPort).inputs.filter (fun i =>
-                    ((cs2 cs0 bb (c.bbs.map (fun p : Name × BBox => p.1)) dPort qPort).fanout i).isEmpty &&
+                (cs2 cs0 bb (c.bbs.map (fun p : Name × BBox => p.1)) dPort qPort ignore).remove
+                  ((cs2 cs0 bb (c.bbs.map (fun p : Name × BBox => p.1)) dPort qPort ignore).inputs.filter (fun i =>
+                    ((cs2 cs0 bb (c.bbs.map (fun p : Name × BBox => p.1)) dPort qPort ignore).fanout i).isEmpty &&
                     !((c.bbs.map (fun p : Name × BBox => p.1)).map (fun b => b ++ "_" ++ qPort)).contains i &&
-                    !(cs2 cs0 bb (c.bbs.map (fun p : Name × BBox => p.1)) dPort qPort).isOut i))
-               else cs2 cs0 bb (c.bbs.map (fun p : Name × BBox => p.1)) dPort qPort) := by
+                    !(cs2 cs0 bb (c.bbs.map (fun p : Name × BBox => p.1)) dPort qPort ignore).isOut i))
+               else cs2 cs0 bb (c.bbs.map (fun p : Name × BBox => p.1)) dPort qPort ignore) := by
             unfold prune R3
             cases ru
             · rfl
